@@ -16,24 +16,39 @@ NAME = "CoverageConsts"
 _OPS = {ast.Lt: "Lt", ast.LtE: "LtE", ast.Gt: "Gt", ast.GtE: "GtE"}
 
 
-def _filter_read(tree):
+def _drop_condition(tree):
+    """the disjunction under which region_depth_count does NOT count a read, in any of its equivalent spellings:
+    a nested `filter_read` returning `not (a or b ...)`, or inside the fetch loop `if a or b ...: continue`, or
+    `if not (a or b ...): <count>`"""
     outer = find_func(tree, "region_depth_count")
+
+    def is_or(e):
+        return isinstance(e, ast.BoolOp) and isinstance(e.op, ast.Or)
+
+    def negated_or(e):
+        return e.operand if isinstance(e, ast.UnaryOp) and isinstance(e.op, ast.Not) and is_or(e.operand) else None
     for n in ast.walk(outer):
-        if isinstance(n, ast.FunctionDef) and n.name == "filter_read":
-            return n
-    raise KeyError("filter_read")
+        if isinstance(n, ast.FunctionDef) and n is not outer:
+            rets = [r for r in ast.walk(n) if isinstance(r, ast.Return)]
+            if len(rets) == 1 and negated_or(rets[0].value) is not None:
+                return negated_or(rets[0].value)
+    for loop in [n for n in ast.walk(outer) if isinstance(n, ast.For)]:
+        for st in loop.body:
+            if isinstance(st, ast.If) and not st.orelse:
+                if is_or(st.test) and len(st.body) == 1 and isinstance(st.body[0], ast.Continue):
+                    return st.test
+                if negated_or(st.test) is not None:
+                    return negated_or(st.test)
+    raise ValueError("region_depth_count: the read filter `not (a or b or ...)` was not found in a known shape")
 
 
 def extract(repo, o):
     tree, src = parse(os.path.join(repo, "cnvlib/coverage.py"))
-    fr = _filter_read(tree)
-    rets = [n for n in ast.walk(fr) if isinstance(n, ast.Return)]
-    if len(rets) != 1:
-        raise ValueError("filter_read: expected exactly one return")
-    e = rets[0].value
-    if not (isinstance(e, ast.UnaryOp) and isinstance(e.op, ast.Not) and isinstance(e.operand, ast.BoolOp)
-            and isinstance(e.operand.op, ast.Or)):
-        raise ValueError("filter_read is not `not (a or b or ...)`: " + ast.unparse(e))
+    disj = _drop_condition(tree)
+
+    class _E:  # keep the code below as it was written for the `return not (...)` shape
+        operand = disj
+    e = _E()
     attrs, cmp_ops = [], []
     for v in e.operand.values:
         if isinstance(v, ast.Attribute) and isinstance(v.value, ast.Name) and v.value.id == "read":
